@@ -283,13 +283,24 @@ def reach_without(b, start, removed_edges, removed_nodes):
 def ret_sites(b):
     """blocks assigning the return place (whole or its enum payload)"""
     out = []
-    for bi, blk in enumerate(b.blocks):
-        for st in blk['s']:
-            if 'assign' in st and st['assign']['l'] == 0 and not st['assign']['p']:
-                out.append((bi, st))
-        t = blk['t']
-        if 'call' in t and t['dest']['l'] == 0 and not t['dest']['p']:
-            out.append((bi, None))
+
+    def sites_of(l, depth):
+        for bi, blk in enumerate(b.blocks):
+            for st in blk['s']:
+                if 'assign' in st and st['assign']['l'] == l and not st['assign']['p']:
+                    # `_0 = move _t` where _t is itself assigned the verdict in several places (an inlined helper's own returns):
+                    # the verdicts are those assignments
+                    src = op_place(st['rv']['use']) if 'use' in st['rv'] else None
+                    if src is not None and not src['p'] and src['l'] > b.arg_count and depth < 3 and len(b.defs.get(src['l'], [])) >= 1 and \
+                            all(d[2] == 'assign' and ('aggregate' in d[3]['rv'] or ('use' in d[3]['rv'] and 'const' in d[3]['rv']['use']))
+                                for d in b.defs.get(src['l'], [])) and b.locals[src['l']]['ty'] == b.locals[l]['ty']:
+                        sites_of(src['l'], depth + 1)
+                    else:
+                        out.append((bi, st))
+            t = blk['t']
+            if 'call' in t and t['dest']['l'] == l and not t['dest']['p']:
+                out.append((bi, None))
+    sites_of(0, 0)
     return out
 
 
@@ -581,6 +592,30 @@ def account(rep, f, c, rule, fn, b, K, ctr, sig_leaves, loops_of, hybrid=False):
             h = max(hs, key=lambda x: len(b.dom[x]))
             loop_by_head[h] = lp
     cname = b.locals[ctr].get('name') or '_%d' % ctr
+    # single-definition copies of the counter taken where it can no longer change (the `base` parameter of an inlined tail helper)
+    ctr_alias = set()
+    for i_, l_ in enumerate(b.locals):
+        if i_ > b.arg_count and i_ != ctr and l_['ty'] == 'usize' and len(b.defs.get(i_, [])) == 1 and b.defs[i_][0][2] == 'assign' and 'use' in b.defs[i_][0][3]['rv']:
+            pl_ = op_place(b.defs[i_][0][3]['rv']['use'])
+            hops_ = 0
+            while pl_ is not None and not pl_['p'] and pl_['l'] != ctr and pl_['l'] > b.arg_count and len(b.defs.get(pl_['l'], [])) == 1 and \
+                    b.defs[pl_['l']][0][2] == 'assign' and 'use' in b.defs[pl_['l']][0][3]['rv'] and hops_ < 6:
+                # through temporaries: base = move _t; _t = copy consumed (all in the same straight-line stretch is not required: the
+                # "counter cannot change afterwards" test below is made from the first copy)
+                db0_ = b.defs[pl_['l']][0]
+                pl_ = op_place(db0_[3]['rv']['use'])
+                hops_ += 1
+                first_copy = (db0_[0], db0_[1])
+            if pl_ is not None and not pl_['p'] and pl_['l'] == ctr:
+                db_, ds_ = (b.defs[i_][0][0], b.defs[i_][0][1]) if hops_ == 0 else first_copy
+                after = b.reach_from(b.succ[db_]) if b.succ[db_] else set()
+                if not any(d[0] in after or (d[0] == db_ and d[1] > ds_) for d in b.defs.get(ctr, [])):
+                    ctr_alias.add(i_)
+
+    def unalias(e):
+        if isinstance(e, tuple) and e and e[0] == 'init' and e[1] in ctr_alias:
+            return ('init', ctr)
+        return tuple(unalias(x) if isinstance(x, tuple) else x for x in e) if isinstance(e, tuple) else e
     for h, lp in sorted(loop_by_head.items()):
         if not lp['parts']:
             continue
@@ -589,7 +624,7 @@ def account(rep, f, c, rule, fn, b, K, ctr, sig_leaves, loops_of, hybrid=False):
             p = summarize(b, blks, end)
             v = p.env.get(ctr, ('init', ctr))
             some_taken = any(e[0] == 'cond' and isinstance(e[1], tuple) and e[1][0] == 'variant' and e[2] == 'Some' and e[3] == lp['sw'] for e in p.events)
-            enum_driven = (lp['res'][1] or '').startswith('<core::iter::Enumerate<')
+            enum_driven = '::iter::Enumerate<' in (lp['res'][1] or '')
             is_idx = lambda e: e[0] == 'fld' and e[2] == '0' and e[1][0] == 'fld' and e[1][2] == '0' and e[1][1][0] == 'as' and e[1][1][2] == 'Some' and \
                 e[1][1][1][0] == 'call' and len(e[1][1][1]) == 4 and e[1][1][1][3] == lp['bb']
             if end[0] in ('back', 'stop') and end[1] == h and some_taken:
@@ -650,10 +685,17 @@ def account(rep, f, c, rule, fn, b, K, ctr, sig_leaves, loops_of, hybrid=False):
                 if leaf is None:
                     continue
                 n += 1
-                terms, k = add_terms(fold(leaf))
+                terms, k = add_terms(fold(unalias(leaf)))
                 init_ok = ('init', ctr) in terms and k == 0
                 rest = [t for t in terms if t != ('init', ctr)]
-                if units == 1:
+                if enum_driven:
+                    # positions in this part are the counter (standing still) plus the element's enumerate() index
+                    is_mul_ = lambda t, cst: t[0] == 'bin' and t[1] == 'Mul' and ((is_idx(t[2]) and t[3][0] == 'c' and t[3][1] == cst) or (is_idx(t[3]) and t[2][0] == 'c' and t[2][1] == cst))
+                    idx_t = [t for t in rest if (is_idx(t) if units == 1 else is_mul_(t, units))]
+                    pay_t = [t for t in rest if is_payload_of_elem_call(t, lp)]
+                    ok = init_ok and len(idx_t) == 1 and len(pay_t) == (1 if units > 1 else 0) and len(rest) == len(idx_t) + len(pay_t)
+                    why = 'an offending unit in an enumerate()-driven part must be reported at counter + index * %d%s' % (units, ' + the position the stride function returned' if units > 1 else '')
+                elif units == 1:
                     ok = init_ok and not rest
                     why = 'an offending single unit must be reported at the counter itself'
                 else:
@@ -710,7 +752,7 @@ def account_enumerate(rep, f, c, rule, fn, b, K):
         ty = b.locals[root[1]]['ty']
         if '&mut' in ty:
             continue
-        if not (lp['res'][1] or '').startswith('<core::iter::Enumerate<'):
+        if not '::iter::Enumerate<' in (lp['res'][1] or ''):
             return 0
         hs = [h for h in heads if h in b.dom[lp['bb']] or h == lp['bb']]
         if not hs:
